@@ -360,9 +360,22 @@ def run(ctx, spec):
     else:
         # identical batch in every process (does not depend on the shard number or on hashing)
         rng = random.Random(f"C09-det-{ctx.seed}")
+        batch = []
         for k in range(spec["batch"]):
             algo = ALGOS[k % len(ALGOS)]
-            case = random_case(rng, algo, 8, 6, 4)
+            batch.append((k, algo, random_case(rng, algo, 8, 6, 4)))
+        # history independence: every process runs the batch in another order (as generated, reversed, shuffled), so a
+        # result that depends on what was computed earlier in the process shows up as a digest mismatch
+        import os
+
+        hs = os.environ.get("PYTHONHASHSEED", "0")
+        order_kind = {"0": "as generated", "1": "reversed"}.get(hs, "shuffled")
+        if order_kind == "reversed":
+            batch.reverse()
+        elif order_kind == "shuffled":
+            random.Random(f"order-{hs}").shuffle(batch)
+        ctx.notes.append(f"determinism batch order under PYTHONHASHSEED={hs}: {order_kind}")
+        for k, algo, case in batch:
             res = solve(case)
             ctx.count("evaluations")
             if res["exc"] is None and res["n"] > 4 * MAX_SET:
